@@ -92,7 +92,7 @@ def install(eng):
     M(r'^std::mem::drop$|^std::mem::forget$', lambda e, st, fr, f, a, m: one(st, UNIT))
     M(r'^<.*as std::default::Default>::default$', lambda e, st, fr, f, a, m: NotImplemented)
     # formatting / printing: empty bodies
-    M(r'^std::fmt::Arguments::(new|from_str|new_const|new_v1|new_v1_formatted)', lambda e, st, fr, f, a, m: one(st, Opaque('fmtargs')))
+    M(r'^std::fmt::Arguments::(<.*>::)?(new|from_str|new_const|new_v1|new_v1_formatted)', lambda e, st, fr, f, a, m: one(st, Opaque('fmtargs')))
     M(r'core::fmt::rt::Argument::new_(display|debug|lower_exp)', lambda e, st, fr, f, a, m: one(st, Opaque('fmtarg')))
     M(r'^std::io::_print$|^std::io::_eprint$', lambda e, st, fr, f, a, m: one(st, UNIT))
     M(r'^std::fmt::format$|alloc::fmt::format', lambda e, st, fr, f, a, m: one(st, Opaque('string')))
